@@ -20,7 +20,8 @@ trvars == <<vars, bad>>
 
 Explains(r) ==
   LET m == Meaning(r.ast)  o == r.obs  t == r.tok IN
-  IF m.kind = "ok" THEN o.kind = "ok" /\ o.cfg = m.cfg
+  IF m.kind = "ok" THEN \/ o.kind = "ok" /\ o.cfg = m.cfg
+                        \/ m.lenient /\ o.kind \in {"parse-error", "tree-error"}
   ELSE IF m.kind \in {"validation", "reject"} THEN o.kind \in {"parse-error", "tree-error"}
   ELSE /\ o.kind = "parse-error"
        /\ \/ m.loc.rule = "none"
